@@ -466,22 +466,39 @@ fn frames_oracle(o: &mut Obs, frames: &[(Vec<u8>, Value)], stored: u64, plimit: 
     if std::str::from_utf8(content).is_err() {
         return; // binary output has no exact text rendering
     }
+    // the previews, frame by frame: the text of the bytes not yet shown, up to the last complete
+    // character of this read (a character split across reads is shown once, whole, with the later
+    // read), cut to the per-frame limit on a character boundary
+    let mut shown = 0usize;
+    let mut prev_total = 0usize;
     for (pv, v) in frames {
-        // the preview must be a prefix of the bytes the frame refers to, within the limit
         let end_total = u(v, "bytes_total") as usize;
-        if end_total > content.len() || b(v, "truncated") {
-            continue;
+        if end_total > content.len() || end_total < shown {
+            return;
         }
-        let s = u(v, "offset_bytes") as usize; // nothing was cut so far: stored offset = output offset
-        if s > end_total {
-            continue;
+        let mut e = end_total;
+        while !is_char_boundary(content, e) {
+            e -= 1;
         }
-        if !content[s..end_total].starts_with(pv) {
-            let class = if !is_char_boundary(content, s) || !is_char_boundary(content, end_total) { "delta_preview_lossy_at_read_boundary_inside_character" } else { "preview_not_prefix" };
-            o.fail(class, format!("frame preview is not a prefix of the output bytes {s}..{end_total} it refers to"));
-        } else if pv.len() as u64 > lim {
-            o.fail("preview_exceeds_limit", format!("frame preview of {} bytes, limit {plimit}", pv.len()));
+        let e = e.max(shown);
+        let mut k = e.min(shown + lim as usize);
+        while !is_char_boundary(content, k) {
+            k -= 1;
         }
+        let expect = &content[shown..k.max(shown)];
+        if pv.as_slice() != expect {
+            let split = !is_char_boundary(content, prev_total) || !is_char_boundary(content, end_total);
+            let class = if pv.len() as u64 > lim {
+                "preview_exceeds_limit"
+            } else if split {
+                "delta_preview_lossy_at_read_boundary_inside_character"
+            } else {
+                "preview_not_prefix"
+            };
+            o.fail(class, format!("frame preview ({} bytes) is not the text of output bytes {shown}..{} (read ends at {end_total}, limit {plimit})", pv.len(), k));
+        }
+        shown = e;
+        prev_total = end_total;
     }
 }
 
